@@ -401,8 +401,44 @@ def main():
             if rng.random() < 0.7:
                 d['props']['entity'] = rng.choice([3, 5, 8])
             descs.append(d)
-        shapes = [build(d) for d in descs]
-        coll = Track(shapes) if (n % 4 == 3) else FeatureCollection(shapes)
+        # equal-but-distinct shapes (same geometry and dt, other properties), exact duplicates of one
+        # object, interleaved with the others in a shuffled order: multiplicity must reach agg_fn
+        mode = n % 5            # 4: pairwise distinct shapes only
+        nid = len(descs)
+        if mode in (0, 1, 3):
+            k = rng.randrange(len(descs))
+            for _ in range(rng.randint(1, 3)):
+                twin = json.loads(json.dumps(descs[k]))
+                twin['props'] = {'id': nid}
+                if rng.random() < 0.8:
+                    twin['props']['entity'] = rng.choice([3, 5, 8, 13])
+                nid += 1
+                descs.append(twin)
+        if mode in (1, 2):
+            k = rng.randrange(len(descs))
+            for _ in range(rng.randint(1, 2)):
+                descs.append({'same_object_as': k})
+        if mode in (0, 1, 3):
+            # shuffle, keeping 'same_object_as' references valid
+            perm = list(range(len(descs)))
+            rng.shuffle(perm)
+            pos = {old: new for new, old in enumerate(perm)}
+            descs = [dict(descs[old], same_object_as=pos[descs[old]['same_object_as']]) if 'same_object_as' in descs[old] else descs[old]
+                     for old in perm]
+        run_collection(descs, n % 4 == 3, base, L, 'random')
+
+    @total('collection')
+    def run_collection(descs, as_track, base, L, source):
+        built = {}
+
+        def get(i):
+            if i not in built:
+                d = descs[i]
+                built[i] = get(d['same_object_as']) if 'same_object_as' in d else build(d)
+            return built[i]
+        shapes = [get(i) for i in range(len(descs))]
+        n_equal = sum(1 for x, y in itertools.combinations(shapes, 2) if x == y)
+        coll = Track(shapes) if as_track else FeatureCollection(shapes)
         hasher = GH.NiemeyerHasher(L, base)
         order = list(coll.geoshapes)
         own = [timed(lambda s=s: sorted(hasher.hash_shape(s))) for s in order]
@@ -412,7 +448,7 @@ def main():
             for s, ks in zip(order, own)])
         for name, fn in AGGS:
             r = guarded(lambda: timed(lambda: hasher.hash_collection(coll, agg_fn=fn) if fn else hasher.hash_collection(coll)))
-            m = {'k': 'collection', 'agg': name, 'shapes': descs, 'track': isinstance(coll, Track), 'base': base, 'len': L,
+            m = {'k': 'collection', 'agg': name, 'shapes': descs, 'track': isinstance(coll, Track), 'base': base, 'len': L, 'source': source, 'equal_pairs': n_equal,
                  'out': r[1] if r[0] == 'Ok' else list(r)}
             if r[0] != 'Ok':
                 i = add(f'KCollection {name} {items} []', m)
@@ -421,8 +457,11 @@ def main():
             out = r[1]
             i = add(f'KCollection {name} {items} {listlit([f"({slit(k)}, {aggv(name, v)})" for k, v in out.items()])}', m)
             ck.count('collection:' + name)
+            if n_equal:
+                ck.count('collection-with-equal-shapes:' + name)
             nontrivial.add((base, L, name, json.dumps(descs, sort_keys=True)))
-            # the property: value at c == agg of exactly the shapes whose own hash set has c, in collection order
+            # the property: value at c == agg of exactly the collection's shapes -- WITH multiplicity, equal (==)
+            # shapes and repeated objects included -- whose own hash set has c, in collection order
             f_agg = fn or len
             keys = set().union(*[set(k) for k in own])
             if set(out) != keys:
@@ -433,7 +472,30 @@ def main():
                     flag(i, 'collection-value', f'cell {c!r}: {out[c]!r}, expected {exp!r}')
                     break
 
-    n_coll = 40 if thorough else 6
+    # fixed corpus: shapes that compare equal (same geometry and dt) but are distinct objects / carry other
+    # properties; one object listed twice; simultaneous pings at one place in a Track
+    P = {'kind': 'point', 'p': (12.3, 45.6), 'dt': (100, 100)}
+    B = {'kind': 'box', 'nw': (12.0, 46.0), 'se': (13.1, 45.2), 'dt': (0, 3600)}
+    Ln = {'kind': 'line', 'pts': [(11.9, 45.1), (13.4, 46.2)]}
+
+    def wp(d, i, ent=None):
+        return dict(d, props=dict({'id': i}, **({'entity': ent} if ent is not None else {})))
+    FIXED_COLL = [
+        ([wp(P, 0, 3), wp(P, 1, 5), wp(P, 2, 5), wp(P, 3)], False),                         # co-located points, same timestamp
+        ([wp(P, 0, 3), wp(P, 1, 5), wp(P, 2, 8)], True),                                    # Track: simultaneous pings at one place
+        ([wp(B, 0, 3), wp(Ln, 1, 5), wp(B, 2, 8), wp(P, 3, 3), wp(B, 4), wp(Ln, 5, 13)], False),   # equal shapes interleaved with others
+        ([wp(Ln, 5, 13), wp(B, 4), wp(P, 3, 3), wp(B, 2, 8), wp(Ln, 1, 5), wp(B, 0, 3)], False),   # ... in the reverse order
+        ([wp(B, 0, 3), {'same_object_as': 0}, wp(P, 1, 5), {'same_object_as': 0}, {'same_object_as': 2}], False),   # one object several times
+        ([wp(B, 0, 3), wp(dict(B, dt=(0, 3601)), 1, 5), wp(B, 2, 8), {'same_object_as': 2}], True),  # Track: equal + nearly equal + repeated
+        ([wp({'kind': 'multipoint', 'members': [{'kind': 'point', 'p': (12.3, 45.6)}, {'kind': 'point', 'p': (12.9, 45.9)}]}, 0, 3),
+          wp({'kind': 'multipoint', 'members': [{'kind': 'point', 'p': (12.3, 45.6)}, {'kind': 'point', 'p': (12.9, 45.9)}]}, 1, 5),
+          wp(dict(P, dt=None), 2, 5), wp(dict(P, dt=None), 3, 8)], False),
+    ]
+    for k, (descs, as_track) in enumerate(FIXED_COLL):
+        for base, L in [((32, 3), (16, 4), (64, 2))[k % 3], (32, 4)]:
+            run_collection(descs, as_track, base, L, 'fixed-equal-shapes')
+
+    n_coll = 48 if thorough else 8
     for n in range(n_coll):
         collection_case(n)
 
@@ -615,6 +677,23 @@ def replay(path):
         print('implementation now:', got)
         print('touched cells of the window:', exp)
         print('missing:', sorted(set(exp) - set(got)), 'extra:', sorted(set(got) - set(exp)))
+    elif m.get('k') == 'collection':
+        descs, built = m['shapes'], {}
+
+        def get(i):
+            if i not in built:
+                built[i] = get(descs[i]['same_object_as']) if 'same_object_as' in descs[i] else build(descs[i])
+            return built[i]
+        shapes = [get(i) for i in range(len(descs))]
+        coll = Track(shapes) if m.get('track') else FeatureCollection(shapes)
+        hasher = GH.NiemeyerHasher(m['len'], m['base'])
+        fn = {'AggLen': len, 'AggTotalTime': agg_functions.total_time, 'AggUnique': agg_functions.unique_entities,
+              'AggIds': lambda xs: [x.properties['id'] for x in xs]}[m['agg']]
+        out = hasher.hash_collection(coll, agg_fn=fn)
+        own = [hasher.hash_shape(s) for s in coll.geoshapes]
+        exp = {c: fn([s for s, ks in zip(coll.geoshapes, own) if c in ks]) for c in set().union(*own)}
+        print('implementation now:', dict(sorted(out.items())))
+        print('aggregation over exactly the shapes (with multiplicity) whose hash set has the cell:', dict(sorted(exp.items())))
     elif m.get('k') == 'multi':
         s = build(m['shape'])
         print('implementation now:', sorted(GH.NiemeyerHasher(m['len'], m['base']).hash_shape(s)))
